@@ -587,6 +587,31 @@ func (fe *FnEnc) useContract(ct *Contract, args []Val, rt types.Type, pos token.
 		}
 		fe.check("call.pre", site+"."+lab, ev.evalBool(r.E), ct.Name+" requires "+r.Src, pos)
 	}
+	// recursion: the callee's measure is lexicographically below the caller's
+	if len(ct.DecrList) > 0 && top.ct != nil && len(top.ct.DecrList) > 0 {
+		evTop := top.newEval(top.entryMem, top.entryMem, top.paramVals)
+		var cal, cur []string
+		for _, d := range ct.DecrList {
+			cal = append(cal, ev.evalTerm(d.E))
+		}
+		for _, d := range top.ct.DecrList {
+			cur = append(cur, evTop.evalTerm(d.E))
+		}
+		n := len(cal)
+		if len(cur) < n {
+			n = len(cur)
+		}
+		// lexicographic <
+		less := "false"
+		for i := n - 1; i >= 0; i-- {
+			less = "(or (< " + cal[i] + " " + cur[i] + ") (and (= " + cal[i] + " " + cur[i] + ") " + less + "))"
+		}
+		nonneg := []string{}
+		for _, c := range cal {
+			nonneg = append(nonneg, "(<= 0 "+c+")")
+		}
+		fe.check("call.decreases", site, and(less, and(nonneg...)), "measure of "+ct.Name+" decreases (termination)", pos)
+	}
 	// a callee that writes, invoked on state guarded by the receiver's mutex, needs the exclusive lock
 	if len(ct.Assigns) > 0 {
 		fe.calleeWritesCheck(ct, pos)
@@ -596,8 +621,12 @@ func (fe *FnEnc) useContract(ct *Contract, args []Val, rt types.Type, pos token.
 	for _, as := range ct.Assigns {
 		fe.havocLvalue(ev, as)
 	}
-	// allocation watermarks may grow
+	// allocation watermarks may grow (unless the callee is declared allocation-free)
+	noalloc := ct.Opts["noalloc"] != ""
 	for _, k := range sortedKeys(fe.mem.ghost) {
+		if noalloc {
+			break
+		}
 		if strings.HasPrefix(k, "next_") {
 			n := s.fresh("nx", "Int")
 			s.assert("(>= " + n + " " + fe.mem.ghost[k] + ")")
@@ -605,6 +634,9 @@ func (fe *FnEnc) useContract(ct *Contract, args []Val, rt types.Type, pos token.
 		}
 	}
 	for _, k := range sortedKeys(s.funSeen) {
+		if noalloc {
+			break
+		}
 		if strings.HasPrefix(k, "G0_next_") {
 			gk := strings.TrimPrefix(k, "G0_")
 			if _, ok := fe.mem.ghost[gk]; !ok {
